@@ -537,3 +537,144 @@ def run_history(name, cvec, hist, jit_state_new, aux=None):
         out.append(sn)
         st = sn
     return out
+
+
+# ------------------------------------------------------------------------------------------------------------------
+# Part 3 (round 2): absolute scale of the constants, and option dictionaries for the aliasing workload (numpy only)
+# ------------------------------------------------------------------------------------------------------------------
+ABSENT = "<absent>"
+
+
+def stress_like_indices(name):
+    """Positions in cvec of the constants that carry units of stress (moduli, strengths; Gc = stress x length with lengths fixed)."""
+    cfg = CONFIGS[name]
+    fam = cfg["family"]
+    if fam in ("LinearElastic", "Neohookean"):
+        return [0]
+    if fam == "Gent":
+        return [0, 1]
+    if fam == "PhaseFieldThreshold":
+        return [0, 2]
+    if fam == "HyperViscoelastic":
+        return [0, 1, 2]
+    if fam == "MultiBranchHyperViscoelastic":
+        return [0, 1, 2, 4, 6]
+    if fam == "J2Plastic":
+        return {"lin": [0, 2, 3], "voce": [0, 2, 3], "pow": [0, 2], "rate": [0, 2, 3, 4]}[cfg["hard"]]
+    raise KeyError(name)
+
+
+def scale_consts(name, cvec, s):
+    """The same dimensionless material in another unit system: every stress-like constant multiplied by s."""
+    out = [float(x) for x in cvec]
+    for i in stress_like_indices(name):
+        out[i] = out[i] * float(s)
+    return out
+
+
+def normalize_consts(name, cvec):
+    """Scale the constants so that the leading modulus is exactly 1 (the sweep then controls the absolute scale)."""
+    return scale_consts(name, cvec, 1.0 / float(cvec[stress_like_indices(name)[0]]))
+
+
+SCALE_BANDS = ["<1e-6", "1e-6..1e-2", "1e-2..1e2", "1e2..1e6", "1e6..1e10", ">=1e10"]
+
+
+def scale_band(name, cvec):
+    """Band of the absolute stiffness 3*mu (the J2 consistency slope is 3*mu + H')."""
+    mu, _ = moduli(name, cvec)
+    m = 3.0 * mu
+    for lab, hi in zip(SCALE_BANDS, [1e-6, 1e-2, 1e2, 1e6, 1e10]):
+        if m < hi:
+            return lab
+    return SCALE_BANDS[-1]
+
+
+# scales used by the sweeps: exact powers of two across 1e-12..1e12, a few decimal unit systems (2e11: steel in pascals)
+SWEEP_SCALES = [2.0 ** k for k in (-40, -27, -13, 0, 13, 27, 34, 37, 40)] + [1e-12, 1e-6, 1e6, 2e11, 1e12]
+
+
+def random_case_scale(rng):
+    """Scale attached to an ordinary case: 70 % keep the sampled unit system, 30 % move it by 10^k, k in -12..12."""
+    if rng.random() < 0.7:
+        return 1.0
+    return float(10.0 ** int(rng.integers(-12, 13)))
+
+
+# option keys of each factory and the values they accept (ABSENT = key not present; the factories define a default)
+OPTION_VALUES = {
+    "LinearElastic": {"strain measure": ["linear", "green lagrange", "logarithmic", ABSENT]},
+    "Neohookean": {"version": ["adagio", "coupled", ABSENT]},
+    "Gent": {},
+    "J2Plastic": {"kinematics": ["large deformations", "small deformations", "seth hill", ABSENT],
+                  "hardening model": ["linear", "voce", "power law"],
+                  "rate sensitivity": ["power law", ABSENT]},
+    "HyperViscoelastic": {},
+    "MultiBranchHyperViscoelastic": {},
+    "PhaseFieldThreshold": {"kinematics": ["large deformations", "small deformations", ABSENT]},
+}
+
+# groups of configurations that are built from ONE shared options dictionary in the aliasing workload
+ALIAS_GROUPS = {
+    "le": ["le_linear", "le_gl", "le_log"],
+    "neo": ["neo_adagio", "neo_coupled"],
+    "gent": ["gent"],
+    "j2_large": ["j2_large_lin", "j2_large_voce", "j2_large_pow", "j2_large_rate"],
+    "j2_small": ["j2_small_lin", "j2_small_voce", "j2_small_pow", "j2_small_rate"],
+    "j2_seth": ["j2_seth_lin", "j2_seth_voce", "j2_seth_pow", "j2_seth_rate"],
+    "visco1": ["visco1"],
+    "visco3": ["visco3"],
+    "pft": ["pft_large", "pft_small"],
+}
+
+
+def mutate_dict_to(d, target):
+    """Turn the dict object d into `target` key by key (delete, overwrite, add) without replacing the object."""
+    for k in list(d):
+        if k not in target:
+            del d[k]
+    for k, v in target.items():
+        d[k] = v
+
+
+def scribble_options(d, family, step, numeric):
+    """Scribble over a caller-owned options dict: every option key is moved `step` places along its value cycle (possibly deleted),
+    every numeric entry is replaced by numeric(old)."""
+    opts = OPTION_VALUES[family]
+    for k, vals in opts.items():
+        cur = d.get(k, ABSENT)
+        i = vals.index(cur) if cur in vals else 0
+        new = vals[(i + step) % len(vals)]
+        if new == ABSENT:
+            d.pop(k, None)
+        else:
+            d[k] = new
+    for k in list(d):
+        if k not in opts and isinstance(d[k], (int, float)):
+            d[k] = numeric(d[k])
+
+
+def factory_for(family):
+    """The library's public factory of a family (worker only)."""
+    if family == "LinearElastic":
+        from optimism.material import LinearElastic as M
+        return M.create_material_model_functions
+    if family == "Neohookean":
+        from optimism.material import Neohookean as M
+        return M.create_material_model_functions
+    if family == "Gent":
+        from optimism.material import Gent as M
+        return M.create_material_functions
+    if family == "J2Plastic":
+        from optimism.material import J2Plastic as M
+        return M.create_material_model_functions
+    if family == "HyperViscoelastic":
+        from optimism.material import HyperViscoelastic as M
+        return M.create_material_model_functions
+    if family == "MultiBranchHyperViscoelastic":
+        from optimism.material import MultiBranchHyperViscoelastic as M
+        return M.create_material_model_functions
+    if family == "PhaseFieldThreshold":
+        from optimism.phasefield import PhaseFieldThreshold as M
+        return M.create_material_model_functions
+    raise KeyError(family)
